@@ -105,8 +105,11 @@ LEVEL_TEXT = ('Coq theorems over ALL schedules (induction on the step relation o
               'NOT proved for all schedules, only checked per enumerated schedule (scheduling points before every wrapped '
               'pthread call / select() and after every unlock; ASan in the harness child) by trace equality with the real '
               'classes: ThreadPool: proved for all schedules and any number of closures (two workers): closures conserved, no '
-              'closure run twice, run by workers only, never by the caller of Execute (c17_pool_exec_once_partial); NOT proved: '
-              'queue empty / all run when JoinAll returns, and the pool wake-up invariant; FutureImpl with more than two holders; ExecutorThread with callbacks that call Execute again '
+              'closure run twice, run by workers only, never by the caller of Execute (c17_pool_exec_once_partial); once both '
+              'joins of JoinAll have returned the workers are finished, the queue is empty, shutdown is set, nothing is in a '
+              "worker's hand and the closures run are exactly those handed to Execute, each once (c17_pool_joined, "
+              'c17_pool_drained, c17_pool_worker_exit, c17_pool_invariant); NOT proved: the pool wake-up invariant (no deadlock '
+              'of JoinAll), more than two workers; FutureImpl with more than two holders; ExecutorThread with callbacks that call Execute again '
               '(execre); deadlock freedom of the SelectServer scenario beyond the wake-up invariant. NOT modelled: closures '
               'that block on a Future inside the pool, SelectServer::Terminate (unlocked m_is_running read), timeouts/other '
               'descriptors of the poller, FilePreferenceSaverThread::Synchronize, ExecutorThread::DrainCallbacks itself, '
